@@ -5,3 +5,7 @@ import "testing"
 func TestC01_Spec(t *testing.T) {
 	checkRapid(t, "C01", "TestC01_Spec", ruleC01, drawC01)
 }
+
+func TestC01_Mutated(t *testing.T) {
+	checkRapid(t, "C01", "TestC01_Mutated", ruleC01Mut, drawC01Mut)
+}
